@@ -655,7 +655,11 @@ func (b *Builder) findTypesIn(pkgPath importPathString, u *types.Universe) error
 		tn, ok := obj.(*tc.TypeName)
 		if ok {
 			t := b.walkType(*u, nil, tn.Type())
-			b.addCommentsToType(obj, t)
+			// The comments of an alias declaration (type X = T) document X,
+			// not T: do not hand them to the type the alias stands for.
+			if !tn.IsAlias() {
+				b.addCommentsToType(obj, t)
+			}
 		}
 		tf, ok := obj.(*tc.Func)
 		// We only care about functions, not concrete/abstract methods.
